@@ -179,6 +179,11 @@ func genSchedTrace(base, idx uint64, small bool) (*SchedTrace, sched.Policy, uin
 		var prog []TOp
 		for j := 0; j < nops; j++ {
 			k := opMenu[rng.Weighted(w)]
+			if crowd > 0 && k == "MultiMany" {
+				// the largest crowds stay affordable under the instrumented portable
+				// build: no 13-20 term double calls, short term lists (below)
+				k = "MultiScalarMult"
+			}
 			op := TOp{Kind: k}
 			pick := func() int {
 				if j > 0 && rng.Bool(0.3) {
@@ -198,6 +203,9 @@ func genSchedTrace(base, idx uint64, small bool) (*SchedTrace, sched.Policy, uin
 			case "MultiScalarMult", "VarTimeMultiScalarMult":
 				// the term count varies from call to call (size-dependent paths, pooled scratch)
 				n := []int{0, 1, 2, 2, 2, 3, 5, 9, 13, 20}[rng.Intn(10)]
+				if crowd >= 33 && n > 8 {
+					n = 8
+				}
 				op.S, op.P = []int{}, []int{}
 				for k := 0; k < n; k++ {
 					op.S = append(op.S, rng.Intn(ns))
